@@ -428,7 +428,7 @@ def build(t):
     if k == "Sliced":
         def sl(idx):
             s = range_slice(idx)
-            return s if s is not None else np.array(idx, dtype=np.int64)
+            return s if (s is not None and not t.get("ia")) else np.array(idx, dtype=np.int64)   # "ia": force integer index arrays
         return ops.Sliced(build(t["a"]), (sl(t["rs"]), sl(t["cs"])))
     if k == "Concat":
         return ops.Concatenated(*[build(x) for x in t["ms"]], axis=t["axis"])
